@@ -261,7 +261,7 @@ def run(ctx):
                        "differs on %r" % [meta[i] for i in bad[:3]])
 
     # ---- (b) forward cases ------------------------------------------------------------
-    nfwd = ctx.pick(98, 588)
+    nfwd = ctx.pick(98, 980)
     cases, meta = [], []
     fails = []
     corpus = load_corpus(nf)
@@ -296,7 +296,7 @@ def run(ctx):
         ctx.obligation("corr:dwt/idwt/padding model agrees with implementation, sub-band shapes = Gen.SliceSizes (forward cases)", False, "corr-shard",
                        "differs on (wi, wiho, dims, comp) = %r" % [meta[i][:4] for i in bad[:5]])
     # ---- (c) inverse cases on independent coefficients -----------------------------------
-    ninv = ctx.pick(49, 294)
+    ninv = ctx.pick(49, 490)
     cases, meta = [], []
     for i in range(ninv):
         wi, wiho = pairs[(i * 5 + 3) % len(pairs)]
